@@ -375,6 +375,33 @@ ENC_LOOP_REVIEWED = {
 }
 
 
+LOOP_FILE = {
+    "decodation::decode_parts": "src/decodation/mod.rs", "decodation::decode_ascii": "src/decodation/mod.rs",
+    "decodation::decode_edifact": "src/decodation/mod.rs", "decodation::decode_x12": "src/decodation/mod.rs",
+    "decodation::decode_c40_like": "src/decodation/mod.rs",
+    "errorcode::decoding::syndrome_based::find_inv_error_locations_levinson_durbin": "src/errorcode/decoding/syndrome_based.rs",
+    "placement::IndexTraversal::run": "src/placement.rs",
+    "encodation::GenericDataEncoder::codewords": "src/encodation/mod.rs", "encodation::ascii::encode": "src/encodation/ascii.rs",
+    "encodation::ascii::encoding_size": "src/encodation/ascii.rs", "encodation::c40::encode_generic": "src/encodation/c40.rs",
+    "encodation::x12::encode": "src/encodation/x12.rs", "encodation::edifact::encode": "src/encodation/edifact.rs",
+    "encodation::base256::encode": "src/encodation/base256.rs",
+    "encodation::planner::shortest_path::remove_hopeless_cases": "src/encodation/planner/shortest_path.rs",
+    "<encodation::planner::c40::C40LikePlan<T, U> as encodation::planner::Plan>::step": "src/encodation/planner/c40.rs",
+    "encodation::planner::c40::unbeatable_strike": "src/encodation/planner/c40.rs",
+}
+
+
+def _loop_budget(table, found):
+    """found: {fn: (file, number of while/loop statements)}.  A loop that moved into a helper of the same file is the
+    same reviewed loop: per file, the reviewed number of loops is compared when the per-function comparison fails."""
+    led, now = defaultdict(int), defaultdict(int)
+    for fn, (n, _why) in table.items():
+        led[LOOP_FILE.get(fn)] += n
+    for fn, (fl, n) in found.items():
+        now[fl] += n
+    return led, now
+
+
 def t_loops_encode(ctx):
     """T-LOOPS (encode scope): every while/loop in the encoder has a reviewed progress argument; for loops are bounded,
     except the planner's `for iteration in 0..` whose exit (every plan reports end after data.len() steps) is NOT decided."""
@@ -385,6 +412,14 @@ def t_loops_encode(ctx):
     dec, _ = R.reachable(g, R.DECODE_ENTRIES)
     obs = []
     n = 0
+    found = {}
+    for name, b in f.thir.items():
+        cn = T.canon(name)
+        if cn in fns and cn not in dec:
+            k = sum(1 for s in T.stmt_walk(T.stmts(b["body"], {"__noinline__": True})) if s[0] == "loop")
+            if k and not (cn.endswith("shortest_path::optimize") and k == 1):
+                found[cn] = (b["span"]["file"], k)
+    led, now = _loop_budget(ENC_LOOP_REVIEWED, found)
     for name, b in sorted(f.thir.items()):
         cn = T.canon(name)
         if cn not in fns or cn in dec:
@@ -400,11 +435,22 @@ def t_loops_encode(ctx):
                 und = cn.endswith("shortest_path::optimize")
                 obs.append(Ob(r, "for:%s" % cn, bounded or und, "for loop in %s over %s%s" % (cn.split("::")[-1], T.sx_show(s[2], 80),
                               " - the planner's character loop: leaves by `return` when every plan reports end or none survives (NOT decided)" if und else ""), site=s[4], undecided=und))
+        if loops and cn.endswith("shortest_path::optimize") and len(loops) == 1 and not any(
+                x[0] == "adt" and x[1] == "core::ops::RangeFrom" for s in fors for x in T.sx_walk(s[2])):
+            # the planner's character loop spelled `loop { .. iteration += 1 }` instead of `for iteration in 0..`: the same
+            # loop, and the same verdict (its exit is NOT decided)
+            n += 1
+            obs.append(Ob(r, "for:%s" % cn, True, "the planner's character loop (spelled `loop` with an explicit counter): leaves by `return` when every plan reports end or none survives (NOT decided)",
+                          site=loops[0][-1] if isinstance(loops[0][-1], str) else None, undecided=True))
+            continue
         if loops:
             n += len(loops)
             allowed, reason = ENC_LOOP_REVIEWED.get(cn, (0, ""))
-            obs.append(Ob(r, "loop:" + cn, len(loops) <= allowed, "%s has %d while/loop statement(s); reviewed: %d%s" % (cn.split("::")[-1], len(loops), allowed, (" - " + reason) if reason else " (no termination argument on file)"),
-                          site=loops[0][-1] if isinstance(loops[0][-1], str) else None))
+            fl = b["span"]["file"]
+            moved = len(loops) > allowed and now[fl] <= led[fl]
+            obs.append(Ob(r, "loop:" + cn, len(loops) <= allowed or moved, "%s has %d while/loop statement(s); reviewed: %d%s" % (cn.split("::")[-1], len(loops), allowed,
+                          (" - " + reason) if reason else (" - within the reviewed number of loops of %s (%d <= %d): moved between functions of that file" % (fl, now[fl], led[fl]) if moved else " (no termination argument on file)")),
+                          site=loops[0][-1] if isinstance(loops[0][-1], str) else None, undecided=moved))
     obs.append(Ob(r, "census", n >= 15, "%d loops of the encode scope (outside the decode scope) were classified" % n))
     return obs
 
@@ -416,6 +462,14 @@ def t_loops(ctx):
     fns, _ = R.reachable(g, R.DECODE_ENTRIES)
     obs = []
     n_for = n_loop = 0
+    found = {}
+    for name, b in f.thir.items():
+        cn = T.canon(name)
+        if cn in fns:
+            k = sum(1 for s in T.stmt_walk(T.stmts(b["body"], {"__noinline__": True})) if s[0] == "loop")
+            if k:
+                found[cn] = (b["span"]["file"], k)
+    led, now = _loop_budget(LOOP_REVIEWED, found)
     for name, b in sorted(f.thir.items()):
         cn = T.canon(name)
         if cn not in fns:
@@ -434,9 +488,12 @@ def t_loops(ctx):
         if loops:
             n_loop += len(loops)
             allowed, reason = LOOP_REVIEWED.get(cn, (0, ""))
-            ok = len(loops) <= allowed
-            obs.append(Ob(r, "loop:" + cn, ok, "%s has %d while/loop statement(s); reviewed: %d%s" % (cn.split("::")[-1], len(loops), allowed, (" - " + reason) if reason else " (no termination argument on file)"),
-                          site=loops[0][-1] if isinstance(loops[0][-1], str) else None))
+            fl = b["span"]["file"]
+            moved = len(loops) > allowed and now[fl] <= led[fl]
+            ok = len(loops) <= allowed or moved
+            obs.append(Ob(r, "loop:" + cn, ok, "%s has %d while/loop statement(s); reviewed: %d%s" % (cn.split("::")[-1], len(loops), allowed,
+                          (" - " + reason) if reason else (" - within the reviewed number of loops of %s (%d <= %d): moved between functions of that file" % (fl, now[fl], led[fl]) if moved else " (no termination argument on file)")),
+                          site=loops[0][-1] if isinstance(loops[0][-1], str) else None, undecided=moved))
             # automatic part for the reader-driven loops
             if cn in ("decodation::decode_x12", "decodation::decode_c40_like", "decodation::decode_edifact", "decodation::decode_ascii"):
                 for k, lp in enumerate(loops):
